@@ -1,7 +1,7 @@
 (** Properties/C06.v — "Encrypted documents yield their plaintext with either password, and only then".
     Only statements, each closed by [exact] of a lemma proved in Crypt/*Proofs.v.  MD5, SHA-2, AES-CBC and SASLprep
     are universally quantified functions; what a theorem needs of them is an explicit premise. *)
-From PdfV Require Import Base.Prelude Gen.Generated Crypt.Rc4 Crypt.Rc4Proofs Crypt.Model Crypt.Spec Crypt.Tables Crypt.Proofs.
+From PdfV Require Import Base.Prelude Gen.Generated Crypt.Rc4 Crypt.Rc4Proofs Crypt.Model Crypt.Spec Crypt.Tables Crypt.Proofs Crypt.KdfProofs.
 
 (** the full statement (for reference): for every variant, passwords, P, id, EncryptMetadata, crypt filters named by /StmF and
     /StrF, object and generation numbers and contents — proved below for /StrF = /StmF; refuted otherwise (C06_strf_refuted, C06-b) *)
@@ -99,6 +99,14 @@ Theorem C06_accepted_iff_rc4 : forall MD5 SHA256 SHA384 SHA512 AESE AESD PREP, (
   (alg6 MD5 R n pw (d_o d) (d_u d) (d_p d) id0 (d_em d) <> None \/ alg7 MD5 R n pw (d_o d) (d_u d) (d_p d) id0 (d_em d) <> None).
 Proof. exact accepted_iff_rc4. Qed.
 Print Assumptions C06_accepted_iff_rc4.
+
+(** revision 6: for every fuel on which Algorithm 2.B (ISO 32000-2, do-while form, "first 16 bytes as a big-endian
+    integer modulo 3") returns, Decoder::revision_6_kdf (while form, byte sum modulo 3) returns the same hash *)
+Theorem C06_kdf_refines : forall SHA256 SHA384 SHA512 AESE, (forall x, length (SHA256 x) = 32%nat) ->
+  forall fuel pw salt u h, alg2b SHA256 SHA384 SHA512 AESE fuel pw salt u = Some h ->
+  revision_6_kdf (fun x => Ok (SHA256 x)) (fun x => Ok (SHA384 x)) (fun x => Ok (SHA512 x)) (fun k iv x => Ok (AESE k iv x)) fuel pw salt u = Ok h.
+Proof. exact kdf_refines. Qed.
+Print Assumptions C06_kdf_refines.
 
 (** every string and stream: decrypt inverts Algorithm 1 / 1.A for every object number, generation, IV and length
     (incl. empty and block-aligned), for RC4, AES-128 and AES-256; exempt objects are returned as stored *)
